@@ -47,7 +47,8 @@ def _spec(module):
         from . import tree, shape, cmpfold
         return [{
             'units': {'cJSON.c': 'tree_bad.c', 'cJSON_Utils.c': 'utils_min.c'},
-            'rules': [tree.tab3, tree.tab14, tree.eff6, tree.c12_structure, tree.lst4, tree.lst2, tree.lst3,
+            'rules': [tree.tab3, tree.tab14, lambda units, R: tree.tab14(units, R, 'good_dup_clone'),
+                      lambda units, R: tree.tab14(units, R, 'dup_clone_late_reset'), tree.eff6, tree.c12_structure, tree.lst4, tree.lst2, tree.lst3,
                       lambda units, R: cmpfold.cmp1(units, R, unit_names=('cJSON.c',)),
                       lambda units, R: shape.shp1(units, R, editors=[
                           ('cJSON.c', 'bad_SHP1_detach', lambda u, f: shape._cases_detach_ptr(u, f, stray_case=False), 'remove the given element'),
